@@ -58,9 +58,26 @@ public:
             w[A_OPEN_BANK_DATA] = 2; w[A_OPEN_DATA] = 2; w[A_OPEN_FILE] = 1; w[A_OPEN_BANK_FILE] = 1; w[A_GET_BANK] = 3; w[A_SET_INSTRUMENT] = 3;
             w[A_SWITCH_EMULATOR] = 2; w[A_SET_NUM_CHIPS] = 2; w[A_GETTERS] = 3; w[A_META] = 2; w[A_SEEK] = 2;
             return w; }();
+        // "dense" histories (one in four): many notes on few channels (incl. the drum channel) and keys, short renders and frequent
+        // chip-count / emulator / reset calls, so that voices are stolen, evacuated and re-created while notes are live
+        const bool dense = r.chance(0.25);
         for(int i = 0; i < len; ++i)
         {
+            if(dense && r.chance(0.25))
+            {
+                // chord burst (drum hit last, half of the time) -> a call that re-creates the chips -> time: notes that are
+                // younger than their minimum life time, or sit on high chip channels, meet a smaller/new set of chips
+                int k = (int)r.range(3, 22);
+                for(int q = 0; q < k; ++q) { Op n(A_NOTE_ON, (int64_t)r.pick<int>({ 0, 1, 2 }), (int64_t)r.range(36, 60), (int64_t)r.range(40, 127)); n.inst = 0; p.ops.push_back(n); }
+                if(r.chance(0.5)) { Op n(A_NOTE_ON, 9, (int64_t)r.range(35, 60), 110); n.inst = 0; p.ops.push_back(n); if(r.chance(0.5)) { Op f(A_NOTE_OFF, 9, n.a[1]); f.inst = 0; p.ops.push_back(f); } }
+                Op c; c.inst = 0; c.kind = (int)r.pick<int>({ A_SET_NUM_CHIPS, A_SET_NUM_CHIPS, A_SET_NUM_CHIPS, A_SWITCH_EMULATOR, A_RESET, A_SET_CHIP_TYPE, A_OPEN_BANK_DATA, A_SET_RUN_AT_PCM_RATE });
+                switch(c.kind) { case A_SET_NUM_CHIPS: c.a[0] = (int64_t)r.range(1, 4); cm.chips = (int)c.a[0]; if(cm.emu == 7 && cm.chips > 2) cm.chips = 2; break; case A_SWITCH_EMULATOR: c.a[0] = (int64_t)r.pick<int>({ 0, 2, 3, 4, 5, 6 }); cm.emu = (int)c.a[0]; break; case A_SET_CHIP_TYPE: case A_SET_RUN_AT_PCM_RATE: c.a[0] = (int64_t)r.below(2); break; default: break; }
+                p.ops.push_back(c);
+                Op t(A_TICK_EVENTS); t.inst = 0; t.d = r.pick<double>({ 0.0, 0.01, 0.04, 0.2 }); p.ops.push_back(t);
+                i += k + 2; continue;
+            }
             Op o; o.kind = (int)r.weighted(weights); o.inst = (int)r.below(4);
+            if(dense && r.chance(0.7)) o.kind = (int)r.pick<int>({ A_NOTE_ON, A_NOTE_ON, A_NOTE_ON, A_NOTE_ON, A_NOTE_OFF, A_SET_NUM_CHIPS, A_SET_NUM_CHIPS, A_GENERATE, A_TICK_EVENTS, A_RESET, A_SWITCH_EMULATOR, A_CONTROLLER, A_SET_CHIP_TYPE, A_PANIC });
             switch(o.kind)
             {
             case A_INIT: o.a[0] = clsRate(r); break;
@@ -124,6 +141,13 @@ public:
             case A_SET_HOOKS: o.a[0] = (int64_t)r.below(32); break;
             case A_DESCRIBE_CHANNELS: o.a[0] = (int64_t)r.pick<int>({ 0, 1, 2, 6, 7, 12, 13, 64, 601, 1000 }); break;
             default: break;
+            }
+            if(dense)
+            {
+                if(o.kind == A_NOTE_ON || o.kind == A_NOTE_OFF) { o.inst = 0; o.a[0] = (int64_t)r.pick<int>({ 0, 1, 9, 9 }); o.a[1] = (int64_t)r.range(36, 47); if(o.kind == A_NOTE_ON) o.a[2] = (int64_t)r.range(1, 127); }
+                if(o.kind == A_SET_NUM_CHIPS) { o.inst = 0; o.a[0] = (int64_t)r.range(1, 5); cm.chips = (int)o.a[0]; if(cm.emu == 7 && cm.chips > 2) cm.chips = 2; }
+                if(o.kind == A_GENERATE) { o.inst = 0; o.a[0] = (int64_t)r.pick<int>({ 2, 64, 256, 512 }); }
+                if(o.kind == A_TICK_EVENTS) { o.inst = 0; o.d = r.pick<double>({ 0.0, 0.001, 0.01, 0.02, 0.04 }); }
             }
             p.ops.push_back(o);
         }
